@@ -52,6 +52,7 @@ OBLIGATIONS = [
     "C18_tie_constants", "C18_tie_options", "C18_tie_order",
     "C18_ages_wellformed_meaning", "C18_generation_random", "C18_generation_table", "C18_generation_table_accepted", "C18_table_row_order_irrelevant",
     "C18_generation_age_units", "C18_draws_random_design_only_refuted", "C18_tie_generation",
+    "C18_tie_generation_wf", "C18_generation_never_crashes", "C18_generation_random_no_crash", "C18_generation_table_total",
 ]
 
 HEADER = """(* REGENERATED on every run from $VERIF_REPO/src/leaspy by harness/props/c18.py — do not edit *)
